@@ -60,6 +60,19 @@ def PROBE():
 VerifProbeDict = None
 
 
+_OTHER = {}
+
+
+def other_fd(T, items):
+    """an instance of a DIFFERENT fixeddict type that declares every key of T plus the undeclared probe keys"""
+    from vc2_conformance.fixeddict import fixeddict
+
+    if T not in _OTHER:
+        names = list(T.entry_objs.keys()) + ["bogus_key", "_verif_undeclared", "x" + list(T.entry_objs.keys())[0]]
+        _OTHER[T] = fixeddict("VerifSourceFor" + T.__name__, *names, module=__name__)
+    return _OTHER[T](items)
+
+
 def keymap(T):
     names = list(T.entry_objs.keys())
     km = dict(UNDECL)
@@ -94,7 +107,13 @@ def exec_case(arg):
         exc = None
         v = o.get("v")
         try:
-            if op == "construct":
+            if op == "construct_fd":
+                obj = T(other_fd(T, [(km[k], v) for k in o["ks"]]))
+            elif op == "update_fd":
+                obj.update(other_fd(T, [(km[k], v) for k in o["ks"]]))
+            elif op == "ior_fd":
+                obj = operator.ior(obj, other_fd(T, [(km[k], v) for k in o["ks"]]))
+            elif op == "construct":
                 items = [(km[k], v) for k in o["ks"]]
                 form = len(hist) % 3
                 if form == 0:
@@ -193,7 +212,7 @@ def record_case(arg):
     ev = [{"tid": tid, "ev": "begin", "type": tname, "decl": names}]
     obj = T()
     for _ in range(nops):
-        op = rnd.choice(["construct", "setitem", "setitem", "setdefault", "update_dict", "update_pairs", "update_kwargs", "ior", "ior", "copy", "pickle"])
+        op = rnd.choice(["construct", "construct_fd", "setitem", "setitem", "setdefault", "update_dict", "update_pairs", "update_kwargs", "update_fd", "ior", "ior", "ior_fd", "copy", "pickle"])
         v = rnd.randrange(3)
         o = {"op": op, "v": v}
         if op in ("setitem", "setdefault"):
@@ -204,7 +223,13 @@ def record_case(arg):
         exc = "none"
         eq = True
         try:
-            if op == "construct":
+            if op == "construct_fd":
+                obj = T(other_fd(T, [(k, v) for k in o["ks"]]))
+            elif op == "update_fd":
+                obj.update(other_fd(T, [(k, v) for k in o["ks"]]))
+            elif op == "ior_fd":
+                obj = operator.ior(obj, other_fd(T, [(k, v) for k in o["ks"]]))
+            elif op == "construct":
                 items = [(k, v) for k in o["ks"]]
                 obj = rnd.choice([lambda: T(dict(items)), lambda: T(items), lambda: T(**dict(items))])()
             elif op == "setitem":
